@@ -121,7 +121,19 @@ func buildFiber(cs *caseState, sp godi.Provider) *fiber.App {
 	}
 	d := app.Group("/d", godifiber.ScopeMiddleware(sp, so2...))
 	d.Get("/"+RouteCtrl, godifiber.Handle(func(k *Ctrl, c *fiber.Ctx) error { return c.SendStatus(200) }, godifiber.WithPanicRecovery(!o.Recovery)))
-	s.Get("/"+RouteCtrl, route(hCtrl))
+	hT := func() fiber.Handler {
+		return godifiber.Handle(func(k *TCtrl, c *fiber.Ctx) error { look(c).onChain(k); return nil }, godifiber.WithPanicRecovery(o.Recovery))
+	}
+	hT1, hT2, hMain := hT(), hT(), route(hCtrl)
+	s.Get("/"+RouteCtrl, func(c *fiber.Ctx) error {
+		if err := hT1(c); err != nil {
+			return err
+		}
+		if err := hT2(c); err != nil {
+			return err
+		}
+		return hMain(c)
+	})
 	s.Get("/"+RoutePlain, route(nil))
 	s.Get("/"+RouteUnreg, route(hUnreg))
 	s.Get("/"+RouteFailCtor, route(hFail))
